@@ -57,13 +57,15 @@ fn gen(rng: &mut Rng, idx: u64, tier: Tier) -> Case {
         let n_ac = rng.range(1, 4) as usize;
         let addrs = gen::addresses(rng, n_ac);
         let mut acs: Vec<gen::Ac> = addrs.iter().map(|&a| gen::aircraft(rng, a)).collect();
+        let twins = acs.len() > 1 && rng.chance(0.3); // two aircraft sharing callsign and squawk
+        if twins { acs[1].callsign = acs[0].callsign.clone(); acs[1].sq = acs[0].sq; }
         let n = if tier == Tier::Thorough && rng.chance(0.05) { rng.range(80, 300) } else { rng.range(3, 60) } as usize;
         for _ in 0..n {
             let a = rng.below(n_ac as u64) as usize;
             // parameters change over time so that "latest" is distinguishable from "earlier"
             if rng.chance(0.3) { acs[a].alt_n = rng.range(41, 1800) as u64; }
             if rng.chance(0.2) { acs[a].sq = [rng.below(8), rng.below(8), rng.below(8), rng.below(8)]; }
-            if rng.chance(0.2) { acs[a].callsign = gen::callsign(rng); }
+            if rng.chance(0.2) && !twins { acs[a].callsign = gen::callsign(rng); }
             if rng.chance(0.1) { acs[a].ca = rng.below(8); }
             let kind = if rng.chance(0.1) { Kind::Df18 } else { *rng.pick(gen::COMMON_KINDS) };
             let vflag = rng.chance(0.7);
